@@ -145,6 +145,7 @@ func runC19(c *Check, w *World) {
 	} else {
 		c.Bad("R19.2", nsfn, "recovery-shape", "no middleware of the served chain defers a recover(): a panicking handler kills the connection without a response", w.Pos(ns.Pos()))
 	}
+	ruleChainTransparent(c, w, tb, "R19.2")
 	// ---- R19.3 limits -------------------------------------------------------------------------------------
 	for _, n := range []string{"ReadTimeout", "WriteTimeout", "MaxRequestBodySize"} {
 		st := srvStores[n]
@@ -463,7 +464,7 @@ func init() {
 		explain: "R19.1 every loop of every function reachable from the router and its handlers (service layer and library) is a counted loop with a bound ≤ 2^24 derived from constants, dominating gates or container lengths — request fields reach the exported library functions unconstrained — or a range / constant-growth loop; in particular the client-chosen HOTP/TOTP windows are ≤ 10 at their loops; " +
 			"R19.2 the server's Handler is Chain(..., Recovery, ...)(routers), Chain applies every middleware of its list, and Recovery has the shape defer{recover() → 5xx status}; next(ctx); R19.3 ReadTimeout, WriteTimeout and MaxRequestBodySize are positive constants; " +
 			"R19.6 the service layer keeps no request state (requests decoded into per-request locals, no pooled request objects, no package variable written, no locks), so a well-formed request is answered the same after any history; R19.5 no function on the request path (handlers, service layer, library) writes a package-level variable: request goroutines share no writable state (a concurrent map write is a fatal error that Recovery cannot catch); R19.4 every error test in every handler leads to writeError with a constant 4xx/5xx status followed by return, writeError sets the status it is given, success paths set 200, unknown paths 404. " +
-			"The loop inside the panic-recovery stack walk (runtime.Frames.Next over a fixed 32-entry buffer) is whitelisted by the callee it polls. Not decided: actual latency, cost classes beyond loop bounds (e.g. quadratic string building), fasthttp internals, OS limits.",
+			"The loop inside the panic-recovery stack walk (runtime.Frames.Next over a fixed 32-entry buffer) is whitelisted by the callee it polls. A string carried round a loop over request data and rebuilt by concatenation with itself or a slice of itself (quadratic work) is reported. The router, server constructor, middleware chain, recovering middleware, error writer and stack-walk helper are identified by what they do, not by name. Not decided: actual latency, other cost classes beyond loop bounds, fasthttp internals, OS limits.",
 		trusted:  []string{"fasthttp enforces ReadTimeout/WriteTimeout/MaxRequestBodySize", "runtime.Frames.Next terminates over a fixed-size pc buffer"},
 		quick:    []Config{CfgNative},
 		thorough: []Config{CfgNative, Cfg386},
@@ -527,4 +528,227 @@ func recoveryShape(w *World, rec *ssa.Function) (okDefer, okRecover, okStatus, o
 		})
 	}
 	return
+}
+
+// ruleChainTransparent (R19.2 / R18.1): every middleware of the served chain is transparent — the handler it
+// returns calls the next handler itself (same goroutine, so a panic below is still under the chain's recover), with
+// its own ctx, on every path (it refuses no request on its own), and does nothing else with it. A middleware that
+// hands `next` to another function (fasthttp.TimeoutWithCodeHandler runs it on a new goroutine, outside Recovery) or
+// answers some requests itself (a Content-Type filter) changes which requests reach the handlers and what happens
+// when one panics.
+func ruleChainTransparent(c *Check, w *World, tb *TB, rule string) {
+	var store *ssa.Store
+	var ns *ssa.Function
+	for _, f := range w.ModuleFuncs(ApiPath) {
+		f := f
+		EachInstr(f, func(in ssa.Instruction) {
+			if st, ok := in.(*ssa.Store); ok && store == nil {
+				if fa, ok := st.Addr.(*ssa.FieldAddr); ok && strings.HasSuffix(fa.X.Type().String(), "fasthttp.Server") && fieldName(fa.X.Type(), fa.Field) == "Handler" {
+					store, ns = st, f
+				}
+			}
+		})
+	}
+	if store == nil {
+		c.Unk(rule, "api", "middleware-chain", "no function of the service builds a fasthttp.Server with a Handler", "")
+		return
+	}
+	ht := tb.Of(store.Val)
+	if !(ht.Op == "calldyn" && len(ht.Args) == 2 && ht.Args[0].Op == "call" && len(ht.Args[0].Args) == 1) {
+		if ht.Op == "fn" {
+			return // the router is served directly: no middleware to judge (the recovery rule reports its absence)
+		}
+		c.Unk(rule, FuncName(ns), "middleware-chain", "the served handler is not a middleware list applied to the router: "+clip(ht.String(), 160), w.InstrPos(store))
+		return
+	}
+	for i, e := range varargsElems(tb, ht.Args[0].Args[0]) {
+		construct := fmt.Sprintf("middleware#%d", i)
+		// the middleware function: named directly, or returned by a configuring constructor (Timeout(5*time.Second))
+		var mw *ssa.Function
+		switch {
+		case e.Op == "fn":
+			mw, _ = e.Val.(*ssa.Function)
+		case e.Op == "closure":
+			if mc, ok := e.Val.(*ssa.MakeClosure); ok {
+				mw, _ = mc.Fn.(*ssa.Function)
+			}
+		case e.Op == "call":
+			if cl, ok := e.Val.(*ssa.Call); ok {
+				if g := cl.Call.StaticCallee(); g != nil && w.InModule(g) {
+					for _, r := range tb.Results(g, nil, nil, 0) {
+						for _, a := range r.Alts() {
+							switch v := a.Val.(type) {
+							case *ssa.MakeClosure:
+								mw, _ = v.Fn.(*ssa.Function)
+							case *ssa.Function:
+								mw = v
+							}
+						}
+					}
+				}
+			}
+		}
+		if mw == nil || len(mw.Params) != 1 {
+			c.Unk(rule, FuncName(ns), construct, "element of the middleware list is not a function of the next handler: "+clip(e.String(), 120), w.InstrPos(store))
+			continue
+		}
+		next := mw.Params[0]
+		why := ""
+		var inner *ssa.Function
+		var cell *ssa.Alloc // a captured parameter lives in a heap cell the closure binds
+		noteUse := func(r ssa.Instruction, isCellUser bool) {
+			switch x := r.(type) {
+			case *ssa.MakeClosure:
+				fn := x.Fn.(*ssa.Function)
+				if inner != nil && inner != fn {
+					why = "the next handler is captured by several closures"
+				}
+				inner = fn
+			case *ssa.DebugRef:
+			case *ssa.Store:
+				if al, ok := x.Addr.(*ssa.Alloc); ok && x.Val == ssa.Value(next) && !isCellUser && cell == nil {
+					cell = al
+				} else if !(isCellUser && x.Addr == ssa.Value(cell) && x.Val == ssa.Value(next)) {
+					why = "the next handler is stored"
+				}
+			case ssa.CallInstruction:
+				why = "the next handler is handed to " + CalleeName(x.Common()) + ": whether it runs on the request's goroutine, under the chain's recover, is not this code's decision"
+			default:
+				why = "the next handler is used other than by calling it"
+			}
+		}
+		if refs := next.Referrers(); refs != nil {
+			for _, r := range *refs {
+				noteUse(r, false)
+			}
+		}
+		if cell != nil && cell.Referrers() != nil {
+			for _, r := range *cell.Referrers() {
+				if ld, ok := r.(*ssa.UnOp); ok && ld.Op == token.MUL {
+					// a load of the cell in the middleware itself: what is loaded is next again
+					if ld.Referrers() != nil {
+						for _, r2 := range *ld.Referrers() {
+							noteUse(r2, true)
+						}
+					}
+					continue
+				}
+				noteUse(r, true)
+			}
+		}
+		if why == "" && inner == nil {
+			why = "the middleware does not build a handler around the next one"
+		}
+		if why == "" {
+			// inside the returned handler: the captured next is called directly, with the handler's ctx, and its
+			// call dominates every return
+			var fv *ssa.FreeVar
+			for _, b := range inner.FreeVars {
+				if b.Name() == next.Name() {
+					fv = b
+				}
+			}
+			isNext := func(v ssa.Value) bool {
+				if fv == nil {
+					return false
+				}
+				if v == ssa.Value(fv) {
+					return true
+				}
+				if ld, ok := v.(*ssa.UnOp); ok && ld.Op == token.MUL && ld.X == ssa.Value(fv) {
+					return true
+				}
+				return false
+			}
+			var calls []*ssa.Call
+			EachInstr(inner, func(in ssa.Instruction) {
+				switch x := in.(type) {
+				case *ssa.Call:
+					if isNext(x.Call.Value) {
+						if len(x.Call.Args) == 1 && len(inner.Params) == 1 && isParamOrItsCell(x.Call.Args[0], inner.Params[0]) {
+							calls = append(calls, x)
+						} else {
+							why = "the next handler is called with something other than the request's ctx"
+						}
+					}
+					for _, a := range x.Call.Args {
+						if isNext(a) {
+							why = "the next handler is handed to " + CalleeName(x.Common())
+						}
+					}
+				case *ssa.Go:
+					if isNext(x.Call.Value) {
+						why = "the next handler is started on a new goroutine: a panic below is outside the chain's recover"
+					}
+					for _, a := range x.Call.Args {
+						if isNext(a) {
+							why = "the next handler is handed to a new goroutine"
+						}
+					}
+				case *ssa.Defer:
+					if isNext(x.Call.Value) {
+						why = "the next handler is deferred"
+					}
+				case *ssa.MakeClosure:
+					for _, bnd := range x.Bindings {
+						if isNext(bnd) {
+							why = "the next handler is captured by a nested closure (it may run on another goroutine or later)"
+						}
+					}
+				case *ssa.Store:
+					if isNext(x.Val) {
+						why = "the next handler is stored"
+					}
+				}
+			})
+			if why == "" {
+				switch {
+				case len(calls) == 0:
+					why = "the returned handler never calls the next handler"
+				default:
+					for _, r := range Returns(inner) {
+						if inner.Recover != nil && r.Block() == inner.Recover {
+							continue // the exit taken after a recovered panic
+						}
+						covered := false
+						for _, cl := range calls {
+							if dominatesInstr(cl, r) {
+								covered = true
+							}
+						}
+						if !covered {
+							why = "the returned handler answers some requests without calling the next handler"
+						}
+					}
+				}
+			}
+		}
+		c.Decide(why == "", rule, FuncName(mw), construct, "the middleware's handler calls the next handler itself, with its ctx, on every path", why, w.Pos(mw.Pos()))
+	}
+}
+
+// isParamOrItsCell: v is the parameter p, or a load from the cell p was spilled into because a closure captures
+// it (the cell is stored to exactly once, with p).
+func isParamOrItsCell(v ssa.Value, p *ssa.Parameter) bool {
+	if v == ssa.Value(p) {
+		return true
+	}
+	ld, ok := v.(*ssa.UnOp)
+	if !ok || ld.Op != token.MUL {
+		return false
+	}
+	al, ok := ld.X.(*ssa.Alloc)
+	if !ok || al.Referrers() == nil {
+		return false
+	}
+	stores := 0
+	for _, r := range *al.Referrers() {
+		if st, isSt := r.(*ssa.Store); isSt && st.Addr == ssa.Value(al) {
+			stores++
+			if st.Val != ssa.Value(p) {
+				return false
+			}
+		}
+	}
+	return stores == 1
 }
